@@ -43,7 +43,7 @@ FUNCTIONS = [
 BOUNDS = ("Boolean problems over ground fluents {a,b,c} or {a,p(o1),p(o2)} (o1,o2:T), 1-2 actions (optionally with a parameter x:T) "
           "with <= 3 effects (unconditional, conditional, forall, forall+conditional; at most one effect per ground fluent per "
           "action), conditions from literals, not, and, or, implies, exists, forall; possible initial states: all ordered choices "
-          "of 1..3 distinct states out of 2^n (quick: increasing and decreasing order), or derived from 1-2 contingent constraints "
+          "of 1..3 distinct states out of 2^n (quick: one order per skeleton, every second triple for the {a,p(o1),p(o2)} family; thorough: all orders), or derived from 1-2 contingent constraints "
           "out of a pool of oneof/or/unknown constraints (incl. negative literals and overlapping groups); compiled plans "
           "<= k' = 4 (quick) / 5 (thorough) for soundness, original conformant plans <= k = 2 (quick) / 3 (thorough) for completeness")
 OUTSIDE = ("more than 3 ground fluents / 2 actions; several effects on the same ground fluent in one action; longer plans; "
@@ -205,11 +205,14 @@ def build(env, s, contingent=False):
     return g
 
 
-def state_sets(n, sizes=(1, 2, 3), orders=("inc", "dec")):
-    """ordered tuples of distinct state indices (a state = bit vector over the n ground atoms)"""
+def state_sets(n, sizes=(1, 2, 3), orders=("inc", "dec"), stride3=1):
+    """ordered tuples of distinct state indices (a state = bit vector over the n ground atoms); stride3 > 1 keeps every
+    stride3-th triple only (quick tier of the slower skeletons)"""
     out = []
     for m in sizes:
-        for combo in itertools.combinations(range(2 ** n), m):
+        for ci, combo in enumerate(itertools.combinations(range(2 ** n), m)):
+            if m == 3 and ci % stride3:
+                continue
             if "inc" in orders:
                 out.append(list(combo))
             if "dec" in orders and m > 1:
@@ -352,21 +355,27 @@ def _check_program(ctx, s, g, states_bits, compile_fn, k, kprime, label):
         return b["conf"]
 
     def bound(red):
-        cp = res[red].problem
+        """between two original actions (and after the last) every internal compiled action (merge, case analysis, fake goal
+        action: those the back-conversion drops) is needed at most once: they only add knowledge"""
         table = setup()[red]["table"]
         n0 = len(box["gas"])
-        pres = [len(a.preconditions) for a, t in zip(cp.actions, table) if t != n0] or [0]
-        return k + k * max(pres) + len(cp.goals)
+        return k + (k + 1) * sum(1 for t in table if t == n0)
 
     def solvable(red, K):
+        """solvable within K steps; a cheaper smaller bound is tried first (sat there implies sat within K)"""
         b = setup()
         key = ("solv", red, K)
         if key not in b:
             c = b[red]
-            up = tvlib.unroll(c["R"], K, gas=c["gas"], tag="c")
-            sv = _solver(ctx)
-            sv.add(tvlib.dom(up), tvlib.valid(up))
-            b[key] = sv.check()
+            r = z3.unsat
+            for K1 in sorted({min(K, k + 2), min(K, 2 * k + 3), K}):
+                up = tvlib.unroll(c["R"], K1, gas=c["gas"], tag="c")
+                sv = _solver(ctx)
+                sv.add(tvlib.dom(up), tvlib.valid(up))
+                r = sv.check()
+                if r != z3.unsat:
+                    break
+            b[key] = r
         return b[key]
 
     def report(failed, what, msg):
@@ -431,13 +440,13 @@ def _inconclusive(ctx):
         ctx.forall_unknown += 1
 
 
-def h_explicit(ctx, s, k=2, kprime=4, sizes=(1, 2, 3), orders=("inc", "dec")):
+def h_explicit(ctx, s, k=2, kprime=4, sizes=(1, 2, 3), orders=("inc", "dec"), stride3=1):
     from unified_planning.model import UPState
 
     env = ctx.fresh_env()
     g = build(env, s)
     n = len(g.atoms)
-    sets = state_sets(n, tuple(sizes), tuple(orders))
+    sets = state_sets(n, tuple(sizes), tuple(orders), stride3)
     sel = sets[ctx.choice("I", len(sets))]
     bits = [tuple(bool((idx >> i) & 1) for i in range(n)) for idx in sel]
     em = g.em
@@ -507,10 +516,11 @@ def shards(tier, seed):
     out = []
     if tier == "quick":
         for i, s in enumerate(QUICK):
-            out.append(dict(name=f"explicit-sk{i:02d}", fn="h_explicit", engine="direct", budget=400, query_timeout=60,
-                            kwargs=dict(s=s, k=2, kprime=4, sizes=[1, 2, 3], orders=["inc", "dec"] if i % 2 == 0 else ["inc"])))
+            out.append(dict(name=f"explicit-sk{i:02d}", fn="h_explicit", engine="direct", budget=900, query_timeout=60,
+                            kwargs=dict(s=s, k=2, kprime=4, sizes=[1, 2, 3], orders=["dec"] if i % 3 == 0 else ["inc"],
+                                        stride3=2 if s["fl"] == "ap" else 1)))
         for i in (0, 1, 6, 8):
-            out.append(dict(name=f"contingent-sk{i:02d}", fn="h_contingent", engine="direct", budget=400, query_timeout=60,
+            out.append(dict(name=f"contingent-sk{i:02d}", fn="h_contingent", engine="direct", budget=900, query_timeout=60,
                             kwargs=dict(s=QUICK[i], k=2, kprime=4, max_states=4)))
     else:
         for i, s in enumerate(QUICK):
